@@ -193,9 +193,9 @@ def describe(spec) -> str:
     def r(v):
         if v is ABSENT:
             return "<absent>"
-        if type(v) is int and abs(v) >= 10 ** 40:
-            sign = "-" if v < 0 else ""
-            a = abs(v)
+        if isinstance(v, int) and not isinstance(v, bool) and abs(v) >= 10 ** 40:
+            sign = ("" if type(v) is int else type(v).__name__ + ":") + ("-" if v < 0 else "")
+            a = abs(int(v))
             d = len(_big_dec(a))
             if a == 10 ** (d - 1):
                 return f"{sign}10**{d - 1}"
@@ -205,7 +205,10 @@ def describe(spec) -> str:
                 return repr(v)
             except Exception as ex:
                 return f"<{type(v).__name__} whose str() raises {type(ex).__name__}>"
-        return repr(v)
+        try:
+            return repr(v)
+        except Exception as ex:
+            return f"<{type(v).__name__} whose repr() raises {type(ex).__name__}>"
     attrs = ", ".join(f"{k}={r(v)}" for k, v in spec["attrs"].items() if v is not ABSENT)
     return (f"type({spec['tname']!r}, ({', '.join(spec['bases']) or 'Exception'},), {{}})"
             f"(*[{', '.join(r(a) for a in spec['args'])}]); attrs: {attrs or '-'}")
@@ -709,6 +712,7 @@ def run(tier: str, seed: int) -> dict:
         "value_kinds": Counter(), "bases": Counter(), "deciding_int_boundaries": Counter(),
         "name_heuristic_hits": Counter(), "optional_mode": Counter(), "spec_coverage": Counter(),
         "sweep_ints": n_sweep_ints,
+        "int_sweep_exhaustive": tier == "thorough",   # every int in -10..1100, each slot, all classifiers
     }
     failures, seen_sigs = [], {}
     evaluations = 0
@@ -831,7 +835,7 @@ def run(tier: str, seed: int) -> dict:
                  "'fallback')"),
         "samples": samples,
         "distribution": dist,
-        "exhaustive": tier == "thorough",   # the integer sweep only; the rest is sampled
+        "exhaustive": False,   # only the integer sweep is exhaustive (distribution.int_sweep_exhaustive)
         "failures": failures,
     }
 
